@@ -639,7 +639,7 @@ def schedule_worker(shard: dict) -> dict:  # noqa: PLR0915
         acc.add_to("function_overlap_pairs", pr)
     acc.nontrivial("schedule", shard["seed"])
     for b in bad[:3]:
-        acc.violation("c15-schedule", {"what": "result under concurrency differs from the single-threaded baseline", "schedule_seed": shard["seed"], **b})
+        acc.violation("c15-schedule", {"what": "result under concurrency differs from the single-threaded baseline", "schedule_seed": shard["seed"], "shard": dict(shard), **b})
     acc.nviol += max(0, len(bad) - 3)
     acc.sample({"schedule_seed": shard["seed"], "threads": len(threads), "switches_inside_pest_frames": stats["switches"], "yields_injected": stats["yields"]})
     return acc.dump()
@@ -714,15 +714,39 @@ def main(tier: str, seed: int) -> int:
 
 
 def replay(path: str) -> int:
-    v = load_replay(path)["violation"]
+    """Re-executes the witness: the same seeded history (or 5 attempts at the same seeded schedule) on the current tree."""
+    body = load_replay(path)
+    v = body["violation"]
     print(json.dumps(v, indent=1)[:2500])
+    tier, seed = body.get("tier", "quick"), int(body.get("seed", 0))
+    quick = tier == "quick"
+    again = None
     if v["kind"] == "c15-history" and "history_seed" in v:
+        # the history worker draws its observed calls from the run's pristine table: rebuild exactly that table
+        rnd = random.Random(seed_int("C15", seed))
+        calls = all_observed_calls()
+        rnd.shuffle(calls)
+        calls = calls[: 220 if quick else 1200]
         env = dict(os.environ)
-        call = tuple(v["call"])
-        _c, res = pristine(call, env)
-        d = history_worker({"seed": v["history_seed"], "steps": v["step"] + 1, "table": [[list(call), res]] + [[list(c), pristine(c, env)[1]] for c in all_observed_calls()[:0]]}) if False else None
-        del d
-        print("pristine now:", res)
+        env["PYTHONHASHSEED"] = "0"
+        with ThreadPoolExecutor(max_workers=NCPU) as ex:
+            table = [[list(c), r] for c, r in ex.map(lambda c: pristine(c, env), calls) if r is not None]
+        again = history_worker({"seed": v["history_seed"], "steps": v["step"] + 1, "table": table})
+    elif v["kind"] == "c15-random-history":
+        again = random_history_worker({"seed": v["history_seed"], "grammars": 5 if quick else 14, "steps": v["step"] + 1})
+    elif v["kind"] == "c15-schedule":
+        for attempt in range(5):
+            sh = v.get("shard") or {"seed": v["schedule_seed"], "objects": 6, "threads": 12, "calls_per_thread": 60, "builds_per_thread": 3, "p_yield": 0.08, "focus": attempt % 2 == 1, "scan": 10}
+            again = schedule_worker(dict(sh))
+            if again["violations"]:
+                break
+        if not again["violations"]:
+            print("schedules are not deterministic: 5 attempts with the same seed did not show a difference on this tree")
+    if again is not None and not again["violations"]:
+        print("not reproduced on the current tree")
+        return 0
+    if again is not None:
+        print("reproduced:", json.dumps(again["violations"][0])[:1500])
     print(f"VIOLATION property=C15 replay={path}")
     return 1
 
